@@ -6,7 +6,8 @@ from lib import (Canon, norm_arm, walk, nodes, ends, src, psrc, outcome, contain
 EXPLANATION = (
     "Decides the plumbing of the two front ends, not token-for-token equality of their output: (D1) every field of the macro's "
     "option struct and of the CLI's argument struct reaches the TypeSpaceSettings setter documented for it, with a value derived "
-    "from that field; (D2) the two crate-name validators accept the same character classes; (D3) the CLI maps each "
+    "from that field; a collection-valued option is handed over element by element from an unfiltered iteration of the field, "
+    "and a setter call is conditional only on the presence of its own option (or both branches of the condition call it); (D2) the two crate-name validators accept the same character classes; (D3) the CLI maps each "
     "`--unknown-crates` literal to the policy of the same name and splits `rename=crate@version` at `=` and `@` in that order; the "
     "macro puts the map key in `rename` and the text before `@` in the crate name; (D4) the macro's `Type: ?Trait + Trait` syntax "
     "starts from {FromStr, Display}, no modifier inserts, `?` removes; (W1) each front end performs exactly TypeSpace::new(&settings) "
@@ -54,6 +55,81 @@ def char_classes(node):
     return methods, chars
 
 
+
+ITER_OK = r"(?:\.(?:iter|into_iter|clone|cloned|iter_mut)\(\))*"
+
+
+def balanced(text, start, open_ch, close_ch):
+    """text[start] is just after an opening bracket: return the content up to its matching close"""
+    depth = 1
+    i = start
+    while i < len(text):
+        ch = text[i]
+        if ch == open_ch:
+            depth += 1
+        elif ch == close_ch and not (close_ch == ">" and text[i - 1] in "=-"):
+            depth -= 1
+            if depth == 0:
+                return text[start:i]
+        i += 1
+    return text[start:]
+
+
+def element_sources(text):
+    """outermost iteration sources of the elements an argument is built from: `elem<SRC>` (closure adaptors) and the
+    desugared for loop `Iterator::next(IntoIterator::into_iter(SRC))`"""
+    out = []
+    i = 0
+    while i < len(text):
+        if text.startswith("elem<", i):
+            srcx = balanced(text, i + 5, "<", ">")
+            out.append(srcx)
+            i += 5 + len(srcx)
+        elif text.startswith("IntoIterator::into_iter(", i):
+            srcx = balanced(text, i + 24, "(", ")")
+            out.append(srcx)
+            i += 24 + len(srcx)
+        else:
+            i += 1
+    return out
+
+
+def check_setter_sites(rep, label, c, h, cn, field_pat):
+    """D1 extras for every with_* call on the settings in front end `h`; field_pat(f) -> regex for the option field f"""
+    from lib import cguards
+    for n, anc in walk(h["body"]):
+        if not (n.get("k") == "mcall" and n["name"].startswith("with_") and "TypeSpaceSettings" in n.get("fn", "")):
+            continue
+        args = [cn.r(a_) for a_ in n["args"]]
+        text = " ; ".join(args)
+        key = "%s:%s#%d" % (label, n["name"], sum(1 for o in rep.obligations if o["key"].startswith("C15.D1/every-element:%s:%s#" % (label, n["name"]))))
+        srcs = element_sources(text)
+        bad = [s_ for s_ in srcs if not re.fullmatch(r"[^ ]*~?\w*(?:\.\w+)+" + ITER_OK, s_) or re.search(r"\.(filter|filter_map|skip|skip_while|take|take_while|step_by|rev|dedup|retain)\(", s_)]
+        rep.ob("C15.D1", "every-element:" + key, not bad, "elements come from an unfiltered iteration of the option" if srcs and not bad else "scalar option" if not srcs else
+               "the elements handed to %s come from `%s`: some of the user's entries never reach the generator" % (n["name"], bad[0][-90:]), n.get("sp"))
+        conds = [g for g in cguards(cn, anc, n) if g[0] in ("if", "else", "arm")]
+        okc = True
+        why = ""
+        for g in conds:
+            if g[0] == "else" and g[1].startswith("let Ok(_) = parse("):
+                continue  # the macro's two input syntaxes
+            if g[0] == "if" and re.fullmatch(r"let Some\(_\) = \S+", g[1]) and g[1].split(" = ", 1)[1] in text.replace("~Some", ""):
+                continue  # `if let Some(x) = option { with_x(x) }`
+            # both branches call the same setter
+            twin = False
+            for a in anc:
+                if a.get("k") == "if" and a.get("else") is not None:
+                    t_has = any(x.get("k") == "mcall" and x["name"] == n["name"] for x, _ in walk(a["then"]))
+                    e_has = any(x.get("k") == "mcall" and x["name"] == n["name"] for x, _ in walk(a["else"]))
+                    if t_has and e_has and (contains_node(a["then"], n) or contains_node(a["else"], n)):
+                        twin = True
+            if twin:
+                continue
+            okc = False
+            why = g[1]
+        rep.ob("C15.D1", "applied-unconditionally:" + key, okc, "no condition other than the presence of the option" if okc else
+               "%s is only called under `%s`: part of what the user configured is dropped by this front end" % (n["name"], why[:100]), n.get("sp"))
+
 def run(facts, rep, tier):
     mc = facts["typify_macro"]
     cli = facts["cargo_typify"]
@@ -89,6 +165,7 @@ def run(facts, rep, tier):
             ok = any(nm == setter and re.search(r"~MacroSettings\.%s\b" % re.escape(f), args) for nm, args in setter_calls)
             rep.ob("C15.D1", "macro-option:%s" % f, ok, "`%s` feeds settings.%s" % (f, setter) if ok else "macro option `%s` never reaches TypeSpaceSettings::%s" % (f, setter))
         rep.floor("C15.D1", "macro options", len(fields), 9)
+        check_setter_sites(rep, "macro", mc, h, cnm, None)
 
     # ------------------------------------------------------------ D1 CLI
     ca = cli.adt("CliArgs")
@@ -117,6 +194,7 @@ def run(facts, rep, tier):
                 rep.ob("C15.D1", "cli-option:output", True, "decided by W2", nontrivial=False)
             else:
                 rep.ob("C15.D1", "cli-option:%s" % f, False, "CLI option `%s` has no setter in the checker's table: it must be reviewed" % f)
+        check_setter_sites(rep, "cli", cli, h, cnc, None)
         for nm, args, n in cli_calls:
             if nm == "with_crate":
                 ok = len(args) == 3 and args[0].endswith("~CrateSpec.name") and args[1].endswith("~CrateSpec.version") and args[2].endswith("~CrateSpec.rename")
@@ -200,6 +278,14 @@ def run(facts, rep, tier):
                 for t in pat_top_variants(a["pat"]):
                     got[t.split("::")[-1]] = src(block_last(a["body"]))
             ok = ".insert(" in got.get("None", "") and ".remove(" in got.get("Maybe", "")
+            cnt = Canon(mc, h, 4)
+            recvs = sorted({cnt.r(x["recv"]) for a in m[0]["arms"] for x, _ in walk(a["body"]) if x.get("k") == "mcall" and x["name"] in ("insert", "remove")})
+            okr = recvs == ["DEFAULT_IMPLS.into_iter().collect()"]
+            rep.ob("C15.D4", "modified-set-starts-from-defaults", okr, "the set that `Trait` / `?Trait` modify is DEFAULT_IMPLS, unconditionally" if okr else
+                   "the impl set that the modifiers edit starts as `%s`, not as the documented defaults {FromStr, Display}: `T: ?Display` or `T: Trait` no longer means defaults minus/plus that trait" % (recvs[0][:120] if recvs else "?"), m[0].get("sp"))
+            tail = cnt.r(block_last(h["body"]))
+            okt = tail.endswith("DEFAULT_IMPLS.into_iter().collect().into_iter())") or (recvs and tail.endswith(recvs[0] + ".into_iter())"))
+            rep.ob("C15.D4", "edited-set-is-returned", bool(okt), "the edited set is what is returned")
             rep.ob("C15.D4", "modifier-none-inserts-maybe-removes", ok, "None => %s, Maybe => %s" % (got.get("None"), got.get("Maybe")), m[0].get("sp"))
 
     # ------------------------------------------------------------ W1 same pipeline
